@@ -15,6 +15,7 @@ pub mod c04;
 pub mod c05;
 pub mod c06;
 pub mod c11;
+pub mod c13;
 pub mod c14;
 pub mod c15;
 
@@ -593,6 +594,7 @@ pub fn lookup(id: &str) -> Option<Box<dyn Property>> {
         "C05" => Some(Box::new(c05::C05)),
         "C06" => Some(Box::new(c06::C06)),
         "C11" => Some(Box::new(c11::C11)),
+        "C13" => Some(Box::new(c13::C13)),
         "C14" => Some(Box::new(c14::C14)),
         "C15" => Some(Box::new(c15::C15)),
         _ => None,
